@@ -9,6 +9,8 @@ import (
 
 import (
 	"github.com/bfenetworks/bfe/bfe_basic"
+	"github.com/bfenetworks/bfe/bfe_basic/condition"
+	"github.com/bfenetworks/bfe/bfe_http"
 )
 
 // Hooks for the out-of-tree verification harness of property C56 (build tag verif). Add-only.
@@ -21,3 +23,16 @@ func VerifSetClientSubnet(req *bfe_basic.Request, m *dns.Msg) { setClientSubnet(
 
 // VerifUnpackMsg exposes unpackMsg (dns.Msg.Unpack as mod_doh calls it).
 func VerifUnpackMsg(buf []byte) (*dns.Msg, error) { return unpackMsg(buf) }
+
+// VerifHandler returns the dohHandler of a module with condition condStr and a DnsClient built from conf
+// (the real Fetch -> RequestToDnsMsg -> exchangeWithRetry -> DnsMsgToResponse path).
+func VerifHandler(condStr string, conf *DnsConf) (func(*bfe_basic.Request) (int, *bfe_http.Response), error) {
+	m := NewModuleDoh()
+	c, err := condition.Build(condStr)
+	if err != nil {
+		return nil, err
+	}
+	m.cond = c
+	m.dnsFetcher = NewDnsClient(conf)
+	return m.dohHandler, nil
+}
